@@ -387,6 +387,25 @@ func genC09(e *emitter, r *rng, tier string) {
 		b.add("fa:1:%s", ps)
 		b.emit(e, "C09.many_occurrences_large_n")
 	}
+	// … and beyond 4096 / 8192 occurrences: every position of a 4200- to 9000-digit window of a
+	// generator-backed Number (known to the oracle at any depth) matches the empty pattern
+	for i := 0; i < big; i++ {
+		length := r.pick([]int{4200, 6000, 9000})
+		ns := genNumber(-1, r.rangeInt(-2, 3), false)
+		b := newScriptBuilder(r, ns)
+		b.add("we:0:%d", length)
+		b.handles = append(b.handles, hinfo{0, length})
+		for _, n := range []int{4097, 8193, maxInt} {
+			if r.coin(60) {
+				b.add("ffn:1:e:%d", n)
+			}
+			if r.coin(60) {
+				b.add("fln:1:e:%d", n)
+			}
+		}
+		b.add("fa:1:e")
+		b.emit(e, "C09.many_occurrences_large_n")
+	}
 }
 
 // ---------------------------------------------------------------- C15 searches stop at the answer
@@ -397,6 +416,39 @@ func genC15(e *emitter, r *rng, tier string) {
 		n = 1500
 	}
 	planted := []int{0, 1, 50, 97, 98, 99, 100, 101, 150, 198, 199, 200, 201, 450, 2500, 5000, 9000}
+	// the read-ahead must not grow with the depth of the match: deep plants in every run, on every
+	// version, through every lazy entry point
+	for _, q := range []int{5200, 6400, 7900, 9800, 12500, 16000, 20000, 40000} {
+		if tier == "quick" && q == 40000 {
+			continue
+		}
+		// a pattern whose FIRST occurrence in the generator's digits is at q
+		var p []int
+		for ln := 8; ln <= 16; ln++ {
+			p = p[:0]
+			for k := 0; k < ln; k++ {
+				p = append(p, genDigit(q+k))
+			}
+			earlier := false
+			for st := 0; st < q && !earlier; st++ {
+				k := 0
+				for k < ln && genDigit(st+k) == p[k] {
+					k++
+				}
+				earlier = k == ln
+			}
+			if !earlier {
+				break
+			}
+		}
+		ps := patString(p)
+		for _, op := range []string{"ff:0:%s", "ffn:0:%s:1", "find:0:%s:1", "m:0:%s:1"} {
+			for v := 1; v <= 3; v++ {
+				emitScriptLine(e, v, "G:-1:1:0", "cons;"+fmt.Sprintf(op, ps)+";cons")
+			}
+		}
+		e.count("C15.deep_plant")
+	}
 	for i := 0; i < n; i++ {
 		var ns numSpec
 		if r.coin(70) {
